@@ -625,7 +625,33 @@ def r03_12(chk):
     chk.floor("R03.12", 2, "filtered in both alignment classes")
 
 
+def r03_13(chk):
+    chk.rule("R03.13", "building a collection from rows that belong to another collection leaves those rows alone: the _construct_* helpers of the alignment module never store an attribute on (or mutate) the data object they are handed -- they may only return it or a copy; a row renamed in place is renamed inside the alignment it came from too, whose names, rows and serialised form then disagree")
+    m = chk.repo.module(ALN)
+    n = 0
+    for node in m.tree.body:
+        if not isinstance(node, ast.FunctionDef):
+            continue
+        is_helper = node.name.startswith("_construct_") or (node.name == "_" and any("_construct_" in norm(d) for d in node.decorator_list))
+        if not is_helper or not node.args.args:
+            continue
+        n += 1
+        p0 = node.args.args[0].arg
+        # stores through the first parameter, before any rebinding of that name
+        rebinds = sorted(st.lineno for st in walk_no_nested(node) if isinstance(st, ast.Assign) and any(isinstance(t, ast.Name) and t.id == p0 for t in st.targets))
+        bad = []
+        for st in walk_no_nested(node):
+            tg = st.targets if isinstance(st, ast.Assign) else [st.target] if isinstance(st, ast.AugAssign) else []
+            for t in tg:
+                if isinstance(t, (ast.Attribute, ast.Subscript)) and isinstance(t.value, ast.Name) and t.value.id == p0 and not any(r <= st.lineno for r in rebinds):
+                    bad.append(st)
+        q = node.name if node.name != "_" else f"{[norm(d).split('.')[0] for d in node.decorator_list][0]}[{norm(node.args.args[0].annotation) if node.args.args[0].annotation is not None else '?'}]"
+        chk.decide(not bad, "R03.13", key(m, q, f"`{p0}` not modified"), m.loc(bad[0] if bad else node), "returns the object or a copy", f"`{norm(bad[0]) if bad else ''}` changes the object the caller passed in: Alignment({{'x': aln.named_seqs['a']}}) renames the row inside `aln` as well")
+    chk.floor("R03.13", 8, "the _construct_* overloads of the alignment module")
+
+
 def run(chk):
+    r03_13(chk)
     r03_12(chk)
     r03_11(chk)
     r03_10(chk)
